@@ -248,41 +248,130 @@ def translate() -> tuple[str, dict]:
     gaf = _find(tree.body, ast.FunctionDef, 'get_arch_filename')
     gp = [a.arg for a in gaf.args.args]
     gb = _body(gaf)
-    if len(gp) != 2 or len(gb) != 1 or not isinstance(gb[0], ast.If) or ast.unparse(gb[0].test) != f'{gp[1]} is None' \
-            or len(gb[0].body) != 1 or len(gb[0].orelse) != 1 or not isinstance(gb[0].body[0], ast.Return) or not isinstance(gb[0].orelse[0], ast.Return):
-        raise TranslateError('get_arch_filename: expected `if index is None: return ... else: return ...`')
-    r_dir, r_num = gb[0].body[0].value, gb[0].orelse[0].value
-    if not (isinstance(r_dir, ast.BinOp) and isinstance(r_dir.op, ast.Add) and isinstance(r_dir.left, ast.Name) and r_dir.left.id == gp[0]):
+    if len(gp) != 2:
+        raise TranslateError('get_arch_filename: (prefix, index) expected')
+
+    def index_none_test(t):
+        """`index is None` -> True, `index is not None` -> False (also under `not`); anything else is not understood"""
+        if isinstance(t, ast.UnaryOp) and isinstance(t.op, ast.Not):
+            return not index_none_test(t.operand)
+        if isinstance(t, ast.Compare) and len(t.ops) == 1 and isinstance(t.left, ast.Name) and t.left.id == gp[1] \
+                and isinstance(t.comparators[0], ast.Constant) and t.comparators[0].value is None:
+            if isinstance(t.ops[0], (ast.Is, ast.Eq)):
+                return True
+            if isinstance(t.ops[0], (ast.IsNot, ast.NotEq)):
+                return False
+        raise TranslateError('get_arch_filename: the test is not `index is None` / `index is not None`')
+
+    def returned(stmts, index_is_none: bool):
+        """the expression returned when the index is / is not None: if/else, early return + fall-through, conditional expression"""
+        for st in stmts:
+            if isinstance(st, ast.Return) and st.value is not None:
+                v = st.value
+                while isinstance(v, ast.IfExp):
+                    v = v.body if index_none_test(v.test) == index_is_none else v.orelse
+                return v
+            if isinstance(st, ast.If):
+                r = returned(st.body if index_none_test(st.test) == index_is_none else st.orelse, index_is_none)
+                if r is not None:
+                    return r
+                continue
+            raise TranslateError(f'line {st.lineno}: get_arch_filename: statement {ast.unparse(st)[:60]!r} not understood')
+        return None
+    r_dir, r_num = returned(gb, True), returned(gb, False)
+    if r_dir is None or r_num is None:
+        raise TranslateError('get_arch_filename: does not return a name in both cases')
+
+    def pieces(e) -> list:
+        """a name expression as a list of literal strings, 'P' (the prefix) and ('I', format spec) (the index): `a + b`, f-strings,
+        `'...'.format(...)`"""
+        if isinstance(e, ast.Constant) and isinstance(e.value, str):
+            return [e.value] if e.value else []
+        if isinstance(e, ast.Name) and e.id == gp[0]:
+            return ['P']
+        if isinstance(e, ast.BinOp) and isinstance(e.op, ast.Add):
+            return pieces(e.left) + pieces(e.right)
+        if isinstance(e, ast.JoinedStr):
+            out = []
+            for v in e.values:
+                if isinstance(v, ast.Constant):
+                    out += pieces(v)
+                elif isinstance(v, ast.FormattedValue) and isinstance(v.value, ast.Name) and v.conversion == -1:
+                    if v.format_spec is None:
+                        spec = ''
+                    elif isinstance(v.format_spec, ast.JoinedStr) and all(isinstance(x, ast.Constant) for x in v.format_spec.values):
+                        spec = ''.join(x.value for x in v.format_spec.values)
+                    else:
+                        raise TranslateError('get_arch_filename: computed format spec')
+                    if v.value.id == gp[0] and spec == '':
+                        out.append('P')
+                    elif v.value.id == gp[1]:
+                        out.append(('I', spec, v.lineno))
+                    else:
+                        raise TranslateError('get_arch_filename: f-string field is neither the prefix nor the index')
+                else:
+                    raise TranslateError('get_arch_filename: f-string piece not understood')
+            return out
+        if isinstance(e, ast.Call) and isinstance(e.func, ast.Attribute) and e.func.attr == 'format' and isinstance(e.func.value, ast.Constant) \
+                and isinstance(e.func.value.value, str):
+            import string
+            pos = list(e.args)
+            kw = {k.arg: k.value for k in e.keywords}
+            if None in kw:
+                raise TranslateError('get_arch_filename: **kwargs in format()')
+            out, auto = [], 0
+            for lit, field, spec, conv in string.Formatter().parse(e.func.value.value):
+                if lit:
+                    out.append(lit)
+                if field is None:
+                    continue
+                if conv is not None or (spec and '{' in spec):
+                    raise TranslateError('get_arch_filename: conversion / nested spec in format()')
+                if field == '':
+                    arg = pos[auto] if auto < len(pos) else None
+                    auto += 1
+                elif field.isdigit():
+                    arg = pos[int(field)] if int(field) < len(pos) else None
+                else:
+                    arg = kw.get(field)
+                if not isinstance(arg, ast.Name):
+                    raise TranslateError('get_arch_filename: format() argument not understood')
+                if arg.id == gp[0] and not spec:
+                    out.append('P')
+                elif arg.id == gp[1]:
+                    out.append(('I', spec or '', e.lineno))
+                else:
+                    raise TranslateError('get_arch_filename: format() field is neither the prefix nor the index')
+            return out
+        raise TranslateError(f'get_arch_filename: name expression {ast.unparse(e)[:60]!r} not understood')
+
+    def merge(ps: list) -> list:
+        out: list = []
+        for x in ps:
+            if isinstance(x, str) and x not in ('P',) and out and isinstance(out[-1], str) and out[-1] != 'P':
+                out[-1] += x
+            else:
+                out.append(x)
+        return out
+    pd, pn = merge(pieces(r_dir)), merge(pieces(r_num))
+    if not (len(pd) == 2 and pd[0] == 'P' and isinstance(pd[1], str) and pd[1] != 'P'):
         raise TranslateError('get_arch_filename: directory name is not prefix + <literal>')
-    dir_suffix = _lit(r_dir.right, 'get_arch_filename')
-    if not isinstance(r_num, ast.JoinedStr):
-        raise TranslateError('get_arch_filename: numbered name is not an f-string')
-    vals = list(r_num.values)
-    def is_fv(v, name):
-        return isinstance(v, ast.FormattedValue) and isinstance(v.value, ast.Name) and v.value.id == name and v.conversion == -1
-    if not vals or not is_fv(vals[0], gp[0]) or vals[0].format_spec is not None:
-        raise TranslateError('get_arch_filename: f-string does not start with {prefix}')
-    vals = vals[1:]
+    dir_suffix = pd[1]
+    if not (pn and pn[0] == 'P'):
+        raise TranslateError('get_arch_filename: numbered name does not start with the prefix')
+    rest = pn[1:]
     sep = ''
-    if vals and isinstance(vals[0], ast.Constant):
-        sep = _lit(vals[0], 'f-string')
-        vals = vals[1:]
-    if not vals or not is_fv(vals[0], gp[1]):
-        raise TranslateError('get_arch_filename: f-string has no {index...} after the separator')
-    fs = vals[0].format_spec
-    if fs is None:
-        spec = ''
-    elif isinstance(fs, ast.JoinedStr) and len(fs.values) == 1 and isinstance(fs.values[0], ast.Constant):
-        spec = fs.values[0].value
-    else:
-        raise TranslateError('get_arch_filename: computed format spec')
-    fill, width = _fmt_spec(spec, r_num.lineno)
-    vals = vals[1:]
+    if rest and isinstance(rest[0], str):
+        sep, rest = rest[0], rest[1:]
+    if not rest or not isinstance(rest[0], tuple):
+        raise TranslateError('get_arch_filename: no index after the separator')
+    fill, width = _fmt_spec(rest[0][1], rest[0][2])
+    rest = rest[1:]
     ext = ''
-    if vals:
-        if len(vals) != 1:
-            raise TranslateError('get_arch_filename: unexpected f-string pieces after {index}')
-        ext = _lit(vals[0], 'f-string')
+    if rest:
+        if len(rest) != 1 or not isinstance(rest[0], str):
+            raise TranslateError('get_arch_filename: unexpected pieces after the index')
+        ext = rest[0]
 
     # ---------------- call sites
     fread = _find(nm.finfo.body, ast.FunctionDef, 'read')
